@@ -25,21 +25,21 @@ Proof. intros. apply ext_laws. eapply seval_frame; eauto. split; assumption. Qed
 
 (* unwind-protect in M, for every outcome r1 of the protected form (value, exit marker, panic): the cleanup
    forms are evaluated once, starting in the state the protected form left, nothing in between; the result
-   is r1 unless the cleanup itself panics / hangs *)
+   is r1 unless a cleanup form itself exits (its marker is the result: repo_fixes/C07-20), panics or hangs *)
 Theorem M_cleanup_whatever_outcome : forall defs n sc tb u p cs st r st',
   meval defs (S n) sc tb (UnwindProtect u p cs) st = (r, st') -> r <> MHang -> r <> MOOF ->
   exists r1 st1 r2,
     meval defs n sc tb p (log (EEnter u) st) = (r1, st1) /\
-    m_seq (meval defs n sc tb) never cs VNil (log (ECleanup u) st1) = (r2, st') /\
-    r = match r2 with MVal _ => r1 | _ => r2 end.
+    m_seq (meval defs n sc tb) cs VNil (log (ECleanup u) st1) = (r2, st') /\
+    r = match r2 with MVal v => if is_marker v then r2 else r1 | _ => r2 end.
 Proof.
   intros defs n sc tb u p cs st r st' H NH NO. cbn [meval] in H.
   destruct (meval defs n sc tb p (log (EEnter u) st)) as [r1 st1] eqn:E.
   destruct r1.
-  - destruct (m_seq (meval defs n sc tb) never cs VNil (log (ECleanup u) st1)) as [r2 st2] eqn:E2.
-    exists (MVal v), st1, r2. destruct r2; inversion H; subst; repeat split; first [reflexivity | assumption].
-  - destruct (m_seq (meval defs n sc tb) never cs VNil (log (ECleanup u) st1)) as [r2 st2] eqn:E2.
-    exists (MErr c), st1, r2. destruct r2; inversion H; subst; repeat split; first [reflexivity | assumption].
+  - destruct (m_seq (meval defs n sc tb) cs VNil (log (ECleanup u) st1)) as [r2 st2] eqn:E2.
+    exists (MVal v), st1, r2. destruct r2; [destruct (is_marker v0) | | |]; inversion H; subst; repeat split; first [reflexivity | assumption].
+  - destruct (m_seq (meval defs n sc tb) cs VNil (log (ECleanup u) st1)) as [r2 st2] eqn:E2.
+    exists (MErr c), st1, r2. destruct r2; [destruct (is_marker v) | | |]; inversion H; subst; repeat split; first [reflexivity | assumption].
   - inversion H; congruence.
   - inversion H; congruence.
 Qed.
@@ -70,12 +70,179 @@ Proof.
   rewrite EM. destruct r; cbn in RL; try discriminate. congruence.
 Qed.
 
+(* go reaches its tag in the model of the Go code: whatever the reference does with the statements after
+   the tag, the model does the same *)
+Theorem M_go_reaches_tag : forall defs E t pre mid rest st fuel o st',
+  let items := tri pre ++ IForm (plug E (Go t)) :: mid ++ ITag t :: rest in
+  guard (defs, Tagbody items) = true ->
+  transp E (Goto t) = true -> enterable E (logtrs pre st) -> memN t (tags_of mid) = false ->
+  s_tagbody (seval defs (length E + S fuel) [] (tags_of items ++ [])) items (length E + fuel) rest
+            (leave E (enter E (logtrs pre st))) = (o, st') -> o <> OOF ->
+  exists r, mrun (S (length E + S fuel)) (defs, Tagbody items) st = (r, st') /\ norm_res r = to_mres o.
+Proof.
+  intros defs E t pre mid rest st fuel o st' items Gp T EN NM HR NO.
+  pose proof (go_reaches_tag defs E t pre mid rest [] [] st fuel T EN NM) as HS. cbv zeta in HS.
+  fold items in HS. rewrite HR in HS.
+  destruct (impl_eq_ref _ _ _ _ _ Gp HS NO) as (r & EM & RL & _). exists r. auto.
+Qed.
+
+(* ---- the guard is closed under contexts: any nesting of the 16 frame kinds ---------------------------- *)
+(* the forms of a frame next to the hole are lexically scoped *)
+Definition side_ok1 (F : frame) (R G : list N) : bool :=
+  match F with
+  | FProgn _ post | FWhen _ post | FLet _ post | FArg _ post | FIgnore _ post | FMutex _ _ post | FFile _ _ post
+  | FLam _ post | FUnless _ post => g_all gd R G post
+  | FIf b => gd R G b
+  | FBlock t _ post => g_all gd (t :: R) G post
+  | FUnwind _ _ => true
+  | FRecover h _ post => gd R G h && g_all gd R G post
+  | FTagbody _ post => g_items gd R (tags_of post ++ G) post
+  | FLoop _ _ _ post res => g_items gd (0%N :: R) (tags_of post ++ G) post && gd (0%N :: R) G res
+  | FDo _ _ post res => g_items gd (0%N :: R) (tags_of post ++ G) post && g_all gd (0%N :: R) G res
+  end.
+Fixpoint side_ok (E : list frame) (R G : list N) : bool :=
+  match E with [] => true | F :: E' => side_ok1 F R G && side_ok E' (bl1 F R) (tg1 F G) end.
+
+Lemma g_all_app : forall R G a b, g_all gd R G (a ++ b) = g_all gd R G a && g_all gd R G b.
+Proof. induction a as [|f a IH]; intros; cbn; [reflexivity | rewrite IH, andb_assoc; reflexivity]. Qed.
+Lemma g_all_trs : forall R G ks, g_all gd R G (trs ks) = true.
+Proof. induction ks; cbn; auto. Qed.
+Lemma g_all_hole : forall R G pre x post, gd R G x = true -> g_all gd R G post = true ->
+  g_all gd R G (trs pre ++ x :: post) = true.
+Proof. intros. rewrite g_all_app, g_all_trs. cbn. rewrite H, H0. reflexivity. Qed.
+Lemma g_items_hole : forall R G pre x post, compound x = true -> gd R G x = true -> g_items gd R G post = true ->
+  g_items gd R G (tri pre ++ IForm x :: post) = true.
+Proof.
+  induction pre as [|k pre IH]; intros x post C H H0; cbn [tri map app g_items].
+  - rewrite C, H, H0. reflexivity.
+  - cbn. apply IH; assumption.
+Qed.
+
+Lemma gd_plug1 : forall F R G x, side_ok1 F R G = true -> compound x = true ->
+  gd (bl1 F R) (tg1 F G) x = true -> gd R G (plug1 F x) = true.
+Proof.
+  intros F R G x S C H. destruct F; cbn [plug1 gd side_ok1 bl1 tg1] in *;
+    try solve [apply g_all_hole; assumption].
+  - (* unwind-protect *) rewrite H, g_all_trs. reflexivity.
+  - (* recover *) apply andb_true_iff in S. destruct S as [S1 S2]. rewrite S1. cbn. apply g_all_hole; assumption.
+  - (* tagbody *) rewrite tags_tri. cbn [tags_of]. apply g_items_hole; assumption.
+  - (* dolist / dotimes *) apply andb_true_iff in S. destruct S as [S1 S2]. rewrite tags_tri. cbn [tags_of].
+    rewrite S2, andb_true_r. apply g_items_hole; assumption.
+  - (* do *) apply andb_true_iff in S. destruct S as [S1 S2]. rewrite tags_tri. cbn [tags_of].
+    rewrite S2, andb_true_r. apply g_items_hole; assumption.
+  - (* if *) rewrite H, S. reflexivity.
+Qed.
+
+Lemma compound_plug1 : forall F x, compound (plug1 F x) = true.
+Proof. destruct F; reflexivity. Qed.
+Lemma compound_plug : forall E x, compound x = true -> compound (plug E x) = true.
+Proof. destruct E; intros; cbn; [assumption | apply compound_plug1]. Qed.
+
+Theorem gd_plug : forall E R G x, side_ok E R G = true -> compound x = true ->
+  gd (bl_in E R) (tg_in E G) x = true -> gd R G (plug E x) = true.
+Proof.
+  induction E as [|F E IH]; intros R G x S C H; cbn in *; [exact H|].
+  apply andb_true_iff in S. destruct S as [S1 S2].
+  apply gd_plug1; [exact S1 | apply compound_plug; exact C |]. apply IH; assumption.
+Qed.
+
+(* return-from through ANY context: no hypothesis on the frames crossed beyond lexical scoping of the
+   forms standing next to the hole *)
+Theorem M_return_through_any_context : forall defs E t v pre post st fuel,
+  gd_defs 0 defs = true -> side_ok E [t] [] = true -> g_all gd [t] [] post = true ->
+  transp E (Ret t (VInt v)) = true -> enterable E (logtrs pre st) ->
+  mrun (S (length E + S (S fuel))) (defs, Block t (trs pre ++ plug E (ReturnFrom t (Const (LInt v))) :: post)) st
+  = (MVal (VInt v), leave E (enter E (logtrs pre st))).
+Proof.
+  intros defs E t v pre post st fuel GD SO GP T EN. apply M_return_reaches_block; try assumption.
+  unfold guard. cbn [fst snd gd]. rewrite GD, andb_true_r.
+  apply g_all_hole; [| exact GP].
+  apply gd_plug; [exact SO | reflexivity |]. cbn [gd]. rewrite andb_true_r.
+  apply bl_in_mem. cbn. rewrite N.eqb_refl. reflexivity.
+Qed.
+
+Theorem M_error_through_any_context : forall defs E c st fuel,
+  gd_defs 0 defs = true -> side_ok E [] [] = true -> transp E (Err c) = true -> enterable E st ->
+  mrun (length E + S fuel) (defs, plug E (Signal c)) st = (MErr c, leave E (enter E st)).
+Proof.
+  intros defs E c st fuel GD SO T EN. apply M_error_class_preserved; try assumption.
+  unfold guard. cbn [fst snd]. rewrite GD, andb_true_r. apply gd_plug; [exact SO | reflexivity | reflexivity].
+Qed.
+
+(* go through any context to a later tag of the tagbody: the statements between go and tag are skipped,
+   the trace markers after the tag run, the tagbody yields nil *)
+Lemma tags_tri_nil : forall ks, tags_of (tri ks) = [].
+Proof. induction ks; cbn; auto. Qed.
+
+Lemma s_pass_tri : forall ev own ks st,
+  (forall k st, ev (Tr k) st = (Normal (VInt (Z.of_N k)), log (ETr k (locks st) (files st)) st)) ->
+  s_pass ev own (tri ks) st = (SDone, logtrs ks st).
+Proof.
+  intros ev own ks st TR. revert st. induction ks as [|k ks IH]; intro st; cbn [tri map s_pass logtrs]; [reflexivity|].
+  rewrite TR. apply IH.
+Qed.
+
+(* a value a tagbody returns early is a marker (it never returns the two-valued object of ignore-errors) *)
+Lemma m_pass_out_marker : forall ev own items st v st',
+  m_pass ev onret_pass own items st = (MOut (MVal v), st') -> is_marker v = true.
+Proof.
+  induction items as [|[t|f] items IH]; intros st v st' H; cbn in H; [discriminate | eauto |].
+  destruct (ev f st) as [o st1]. destruct o; try discriminate.
+  destruct v0; try solve [eapply IH; eauto].
+  - inversion H; subst. reflexivity.
+  - destruct (memN t own); inversion H; subst. reflexivity.
+Qed.
+Lemma m_tagbody_some_marker : forall ev all k items st v st',
+  m_tagbody ev onret_pass all k items st = (Some (MVal v), st') -> is_marker v = true.
+Proof.
+  induction k as [|k IH]; intros items st v st' H; cbn in H;
+    destruct (m_pass ev onret_pass (tags_of all) items st) as [y st1] eqn:E; destruct y; try discriminate.
+  - inversion H; subst. eapply m_pass_out_marker; eauto.
+  - inversion H; subst. eapply m_pass_out_marker; eauto.
+  - eapply IH; eauto.
+Qed.
+
+Theorem M_go_through_any_context : forall defs E t pre mid post st fuel,
+  let items := tri pre ++ IForm (plug E (Go t)) :: mid ++ ITag t :: tri post in
+  gd_defs 0 defs = true -> side_ok E [] (tags_of mid ++ [t]) = true ->
+  g_items gd [] (tags_of mid ++ [t]) mid = true ->
+  transp E (Goto t) = true -> enterable E (logtrs pre st) -> memN t (tags_of mid) = false ->
+  mrun (S (length E + S fuel)) (defs, Tagbody items) st
+  = (MVal VNil, logtrs post (leave E (enter E (logtrs pre st)))).
+Proof.
+  intros defs E t pre mid post st fuel items GD SO GM T EN NM.
+  assert (TG : tags_of items = tags_of mid ++ [t]).
+  { unfold items. rewrite tags_tri. cbn [tags_of]. rewrite tags_of_app_c. cbn [tags_of]. rewrite tags_tri_nil. reflexivity. }
+  assert (Gp : guard (defs, Tagbody items) = true).
+  { unfold guard. cbn [fst snd gd]. rewrite GD, andb_true_r. rewrite TG, app_nil_r.
+    unfold items. apply g_items_hole; [apply compound_plug; reflexivity | |].
+    - apply gd_plug; [exact SO | reflexivity |]. cbn [gd]. apply tg_in_mem. apply memN_app_r. cbn. rewrite N.eqb_refl. reflexivity.
+    - clear -GM. revert GM. generalize (tags_of mid ++ [t]) as G0. intros G0 GM.
+      induction mid as [|[t'|f] mid IH]; cbn [app g_items] in *.
+      + clear. induction post; cbn; auto.
+      + apply IH. exact GM.
+      + apply andb_true_iff in GM. destruct GM as [G1 G2]. rewrite G1. cbn. apply IH. exact G2. }
+  assert (HR : s_tagbody (seval defs (length E + S fuel) [] (tags_of items ++ [])) items (length E + fuel) (tri post)
+                 (leave E (enter E (logtrs pre st))) = (Normal VNil, logtrs post (leave E (enter E (logtrs pre st))))).
+  { assert (TR : forall k s, seval defs (length E + S fuel) [] (tags_of items ++ []) (Tr k) s =
+                             (Normal (VInt (Z.of_N k)), log (ETr k (locks s) (files s)) s)).
+    { rewrite Nat.add_succ_r. reflexivity. }
+    destruct (length E + fuel); cbn [s_tagbody]; rewrite (s_pass_tri _ _ post _ TR); reflexivity. }
+  destruct (M_go_reaches_tag defs E t pre mid (tri post) st fuel _ _ Gp T EN NM HR) as (r & EM & RL); [discriminate|].
+  fold items in EM. rewrite EM. destruct r; cbn in RL; try discriminate.
+  destruct v; cbn in RL; try discriminate; [reflexivity|].
+  exfalso. unfold mrun in EM. cbn [fst snd meval] in EM.
+  match type of EM with context [m_tagbody ?a ?b ?c ?d ?e ?f] =>
+    destruct (m_tagbody a b c d e f) as [[r|] st1] eqn:EB end; [| discriminate EM].
+  inversion EM; subst. apply m_tagbody_some_marker in EB. discriminate EB.
+Qed.
+
 (* ---- non-vacuity ---------------------------------------------------------------------------------- *)
 Definition st0 : state := init_state [0%Z; 0%Z].
 
 (* a program inside the guard: five levels (block, let, unwind-protect, with-mutex-lock, dotimes,
    unwind-protect, with-open-file, when), a user function with its own unwind-protect and (return), and a
-   return-from that crosses all of it *)
+   return-from that crosses all of it from the FIRST position of a when body, after which forms follow *)
 Definition ex_prog : prog :=
   ([[Block 0%N [UnwindProtect 9%N (Return (Const (LInt 5))) [Tr 90%N]; Tr 91%N]]],
    Block 1%N [Let [Tr 1%N]
@@ -83,7 +250,7 @@ Definition ex_prog : prog :=
                    (WithMutex 0%N [Tr 2%N;
                       Loop KDotimes 2 [IForm (Tr 3%N);
                                        IForm (UnwindProtect 2%N
-                                                (WithFile 1%N [When (Const LT) [CallU 0; ReturnFrom 1%N (Tr 4%N)]])
+                                                (WithFile 1%N [When (Const LT) [CallU 0; ReturnFrom 1%N (Tr 4%N); Tr 8%N]; Tr 9%N])
                                                 [Tr 5%N])] (Const LNil)])
                    [Tr 6%N]];
               Tr 7%N]).
@@ -95,108 +262,86 @@ Example ex_prog_in_guard :
      ECleanup 2; ETr 5 1 0; ECleanup 1; ETr 6 0 0]%N.
 Proof. vm_compute. repeat split; reflexivity. Qed.
 
-(* a context of nine frames a (return-from b1 ..) may cross: hypotheses of exit_through_context /
-   return_reaches_block are satisfiable, and the final state shows the order: cleanup of the inner
-   unwind-protect (file still open, mutex held), file closed, mutex released, cleanup of the outer one *)
+(* a context made of all sixteen frame kinds, the hole in a non-last position of each body, in an
+   argument position, in a tagbody statement and in two loop bodies: it satisfies the hypotheses of
+   exit_through_context / M_return_through_any_context for a return, a go and an error, and the final state
+   shows the order: cleanup of the inner unwind-protect (file still open, mutex held), file closed, mutex
+   released, cleanup of the outer one *)
 Definition E_ex : list frame :=
-  [FUnwind 1%N [10%N]; FMutex 0%N [11%N] []; FBlock 2%N [12%N] [Tr 99%N]; FLoop KDotimes 1 [13%N] [] (Const LNil);
-   FFile 1%N [] []; FUnwind 2%N [20%N]; FTagbody [14%N] [ITag 3%N]; FLam [] []; FLet [] [Tr 98%N]].
+  [FUnwind 1%N [10%N]; FMutex 0%N [11%N] [Tr 97%N]; FBlock 2%N [12%N] [Tr 99%N]; FLoop KDotimes 1 [13%N] [] (Const LNil);
+   FFile 1%N [] [Tr 96%N]; FUnwind 2%N [20%N]; FTagbody [14%N] [ITag 3%N]; FLam [] [Tr 95%N]; FLet [] [Tr 98%N];
+   FProgn [] [Tr 94%N]; FWhen [] [Tr 93%N]; FArg [15%N] [Tr 92%N]; FIgnore [] [Tr 91%N]; FRecover (Tr 90%N) [] [Tr 89%N];
+   FDo 1 [] [] [Tr 88%N]; FUnless [] [Tr 87%N]; FIf (Tr 86%N)].
 Example E_ex_ok :
-  transp E_ex (Ret 1%N (VInt 5)) = true /\ transp E_ex (Goto 7%N) = true /\ transp E_ex (Err CDivZero) = true /\
+  transp E_ex (Ret 1%N (VInt 5)) = true /\ transp E_ex (Goto 7%N) = true /\ transp E_ex (Err CDivZero) = false /\
+  transp (firstn 12 E_ex) (Err CDivZero) = true /\
+  side_ok E_ex [1%N] [] = true /\ side_ok E_ex [] [7%N] = true /\
   enterable E_ex st0 /\
   trace (leave E_ex (enter E_ex st0)) =
-    [EEnter 1; ETr 11 1 0; ETr 12 1 0; ETr 13 1 0; EEnter 2; ETr 14 1 8; ECleanup 2; ETr 20 1 8; ECleanup 1; ETr 10 0 0]%N.
+    [EEnter 1; ETr 11 1 0; ETr 12 1 0; ETr 13 1 0; EEnter 2; ETr 14 1 8; ETr 15 1 8; ECleanup 2; ETr 20 1 8; ECleanup 1; ETr 10 0 0]%N.
 Proof. vm_compute. repeat split; reflexivity. Qed.
 
-(* ---- refutations: where the transcription of the Go code departs from the reference ------------------ *)
-(* each witness: outside the guard; M's outcome (what slip does, confirmed on every run by the replay of
-   the known finding) against S's *)
+(* ---- the witnesses of the repaired findings: now inside the guard, M = S = what the language demands -- *)
 Definition KI (z : Z) : form := Const (LInt z).
 Definition run_m (p : prog) (vs : list Z) := let '(r, st) := mrun 60 p (init_state vs) in (r, visible (trace st), vars st).
 Definition run_s (p : prog) (vs : list Z) := let '(o, st) := srun 60 p (init_state vs) in (o, visible (trace st), vars st).
 
 (* (block b (when t (return-from b 1) (tr 7)) 2) and the same through cond, progn, ignore-errors, recover,
-   with-mutex-lock, with-open-file: the exit is dropped, the following form runs, the block yields 2 *)
+   with-mutex-lock, with-open-file *)
 Definition w_body (wrap : list form -> form) : prog :=
   ([], Block 1%N [wrap [ReturnFrom 1%N (KI 1); Tr 7%N]; KI 2]).
 Definition body_wrappers : list (list form -> form) :=
   [When (Const LT); (fun b => Cond [(Const LT, b)]); Progn; IgnoreErrors; Recover (Const LNil);
    WithMutex 0%N; WithFile 0%N].
-Theorem body_swallows_exit_refuted :
-  forallb (fun w => negb (guard (w_body w))) body_wrappers = true /\
-  map (fun w => run_m (w_body w) []) body_wrappers = repeat (MVal (VInt 2), [(7, 0, 0)]%N, []) 5 ++
-     [(MVal (VInt 2), [(7, 1, 0)]%N, []); (MVal (VInt 2), [(7, 0, 1)]%N, [])] /\
-  map (fun w => run_s (w_body w) []) body_wrappers = repeat (Normal (VInt 1), [], []) 7.
-Proof. vm_compute. repeat split; reflexivity. Qed.
-
-(* (block b (list 1 (return-from b 5) 3)) / (block b (let ((x (return-from b 1))) 5) 3) /
-   (block b (when (return-from b 1) 4) 2): the marker is taken as a value *)
 Definition w_arg : prog := ([], Block 1%N [CallList [KI 1; ReturnFrom 1%N (KI 5); KI 3]]).
 Definition w_letinit : prog := ([], Block 1%N [Let [ReturnFrom 1%N (KI 1)] [KI 5]; KI 3]).
 Definition w_test : prog := ([], Block 1%N [When (ReturnFrom 1%N (KI 1)) [KI 4]; KI 2]).
-Theorem argument_captures_exit_refuted :
-  guard w_arg = false /\ guard w_letinit = false /\ guard w_test = false /\
-  fst (mrun 60 w_arg st0) = MVal (VList [VInt 1; VRetM 1%N (VInt 5); VInt 3]) /\ fst (srun 60 w_arg st0) = Normal (VInt 5) /\
-  fst (mrun 60 w_letinit st0) = MVal (VInt 3) /\ fst (srun 60 w_letinit st0) = Normal (VInt 1) /\
-  fst (mrun 60 w_test st0) = MVal (VInt 2) /\ fst (srun 60 w_test st0) = Normal (VInt 1).
-Proof. vm_compute. repeat split; reflexivity. Qed.
-
-(* (block b (tagbody (return-from b 1)) 2): tagbody drops a return marker *)
 Definition w_tagbody_ret : prog := ([], Block 1%N [Tagbody [IForm (ReturnFrom 1%N (KI 1))]; KI 2]).
-(* (tagbody top (setq v0 (+ v0 1)) (when (< v0 3) (go top))): symbol tags are evaluated as variables;
-   with an integer tag the backward go silently ends the tagbody *)
 Definition w_symtag : prog := ([], Tagbody [ITag 50%N; IForm (Incf 0); IForm (When (Lt 0 3) [Go 50%N])]).
 Definition w_backward : prog := ([], Tagbody [ITag 1%N; IForm (Incf 0); IForm (When (Lt 0 3) [Go 1%N])]).
-(* (tagbody (tagbody (go 9)) (setq v0 (+ v0 1)) 9): a go to an outer tag ends the inner tagbody only *)
 Definition w_outer_go : prog := ([], Tagbody [IForm (Tagbody [IForm (Go 9%N)]); IForm (Incf 0); ITag 9%N]).
-Theorem tagbody_refuted :
-  guard w_tagbody_ret = false /\ guard w_symtag = false /\ guard w_backward = false /\ guard w_outer_go = false /\
-  fst (mrun 60 w_tagbody_ret st0) = MVal (VInt 2) /\ fst (srun 60 w_tagbody_ret st0) = Normal (VInt 1) /\
-  run_m w_symtag [0%Z] = (MErr CUnbound, [], [0%Z]) /\ run_s w_symtag [0%Z] = (Normal VNil, [], [3%Z]) /\
-  run_m w_backward [0%Z] = (MVal VNil, [], [1%Z]) /\ run_s w_backward [0%Z] = (Normal VNil, [], [3%Z]) /\
-  run_m w_outer_go [0%Z] = (MVal VNil, [], [1%Z]) /\ run_s w_outer_go [0%Z] = (Normal VNil, [], [0%Z]).
-Proof. vm_compute. repeat split; reflexivity. Qed.
-
-(* (tagbody (dolist (x '(1 2)) (go 5)) (setq v0 (+ v0 1)) 5): the loop swallows the go and goes on;
-   (block nil (dotimes (i 3 (return 8)) (tr 1)) 5): a return in the result form escapes the loop's nil block *)
 Definition w_loop_go : prog := ([], Tagbody [IForm (Loop KDolist 2 [IForm (Go 5%N)] (Const LNil)); IForm (Incf 0); ITag 5%N]).
 Definition w_loop_res : prog := ([], Block 0%N [Loop KDotimes 3 [IForm (Tr 1%N)] (Return (KI 8)); KI 5]).
-(* (block b (let () (do (..) ((= i 3) 7) (return-from b 1))) 9): do forwards a named return only when the
-   scope it is called in is itself a block scope *)
 Definition w_do : prog := ([], Block 1%N [Let [] [Do 3 [IForm (ReturnFrom 1%N (KI 1))] [KI 7]]; KI 9]).
-Theorem loops_refuted :
-  guard w_loop_go = false /\ guard w_loop_res = false /\ guard w_do = false /\
-  run_m w_loop_go [0%Z] = (MVal VNil, [], [1%Z]) /\ run_s w_loop_go [0%Z] = (Normal VNil, [], [0%Z]) /\
-  fst (mrun 60 w_loop_res st0) = MVal (VInt 8) /\ fst (srun 60 w_loop_res st0) = Normal (VInt 5) /\
-  fst (mrun 60 w_do st0) = MVal (VInt 9) /\ fst (srun 60 w_do st0) = Normal (VInt 1).
-Proof. vm_compute. repeat split; reflexivity. Qed.
-
-(* (tagbody (funcall (lambda () (go 5) 1)) (setq v0 (+ v0 1)) 5) and the same with (block b (go 5) 1): a go
-   marker is only handed on from the last form *)
+Definition w_do_res : prog := ([], Block 1%N [Do 1 [] [ReturnFrom 1%N (KI 1); KI 9]; KI 2]).
 Definition w_lam_go : prog := ([], Tagbody [IForm (Lam [Go 5%N; KI 1]); IForm (Incf 0); ITag 5%N]).
 Definition w_block_go : prog := ([], Tagbody [IForm (Block 1%N [Go 5%N; KI 1]); IForm (Incf 0); ITag 5%N]).
-Theorem go_not_forwarded_refuted :
-  guard w_lam_go = false /\ guard w_block_go = false /\
-  run_m w_lam_go [0%Z] = (MVal VNil, [], [1%Z]) /\ run_s w_lam_go [0%Z] = (Normal VNil, [], [0%Z]) /\
-  run_m w_block_go [0%Z] = (MVal VNil, [], [1%Z]) /\ run_s w_block_go [0%Z] = (Normal VNil, [], [0%Z]).
+Definition w_cleanup : prog := ([], Block 1%N [UnwindProtect 1%N (KI 1) [ReturnFrom 1%N (KI 2)]; KI 3]).
+Definition w_cleanup_err : prog := ([], Block 1%N [UnwindProtect 1%N (Signal CError) [ReturnFrom 1%N (KI 2)]]).
+Definition w_mv : prog := ([], When (IgnoreErrors [Signal CError]) [KI 1]).
+Definition w_nested : prog := ([], Block 1%N [Block 2%N [ReturnFrom 1%N (ReturnFrom 2%N (KI 1)); KI 2]; KI 3]).
+Definition w_cond_nobody : prog := ([], Cond [(KI 5, [])]).
+
+Definition repaired : list prog :=
+  map w_body body_wrappers ++
+  [w_arg; w_letinit; w_test; w_tagbody_ret; w_symtag; w_backward; w_outer_go; w_loop_go; w_loop_res; w_do; w_do_res;
+   w_lam_go; w_block_go; w_cleanup; w_cleanup_err; w_mv; w_nested; w_cond_nobody].
+Theorem repaired_witnesses_agree :
+  forallb guard repaired = true /\
+  map (fun p => run_m p [0%Z]) repaired =
+    repeat (MVal (VInt 1), [], [0%Z]) 7 ++
+    [(MVal (VInt 5), [], [0%Z]); (MVal (VInt 1), [], [0%Z]); (MVal (VInt 1), [], [0%Z]); (MVal (VInt 1), [], [0%Z]);
+     (MVal VNil, [], [3%Z]); (MVal VNil, [], [3%Z]); (MVal VNil, [], [0%Z]); (MVal VNil, [], [0%Z]);
+     (MVal (VInt 5), [(1, 0, 0); (1, 0, 0); (1, 0, 0)]%N, [0%Z]); (MVal (VInt 1), [], [0%Z]); (MVal (VInt 1), [], [0%Z]);
+     (MVal VNil, [], [0%Z]); (MVal VNil, [], [0%Z]); (MVal (VInt 2), [], [0%Z]); (MVal (VInt 2), [], [0%Z]);
+     (MVal VNil, [], [0%Z]); (MVal (VInt 3), [], [0%Z]); (MVal (VInt 5), [], [0%Z])] /\
+  map (fun p => let '(r, tr, vs) := run_m p [0%Z] in (norm_res r, tr, vs)) repaired =
+  map (fun p => let '(o, tr, vs) := run_s p [0%Z] in (to_mres o, tr, vs)) repaired.
 Proof. vm_compute. repeat split; reflexivity. Qed.
 
-(* (block b (unwind-protect 1 (return-from b 2)) 3): an exit out of a cleanup form is dropped *)
-Definition w_cleanup : prog := ([], Block 1%N [UnwindProtect 1%N (KI 1) [ReturnFrom 1%N (KI 2)]; KI 3]).
+(* ---- refutations: where the transcription of the Go code still departs from the reference ------------- *)
+(* each witness: outside the guard; M's outcome (what slip does, confirmed on every run by the replay of
+   the known finding) against S's *)
 (* (defun g () (return-from zz 3)) (block zz (g) 5): InBlock walks the callers' scopes: not lexical *)
 Definition w_dyn : prog := ([[ReturnFrom 7%N (KI 3)]], Block 7%N [CallU 0; KI 5]).
-(* (when (ignore-errors (error "x")) 1): the two-valued result is not nil; when tests its first value since repo_fixes/C01-19: nil in M and S *)
-Definition w_mv : prog := ([], When (IgnoreErrors [Signal CError]) [KI 1]).
-(* (block a (block b (return-from a (return-from b 1)) 2) 3): a marker as the value of a return-from *)
-Definition w_nested : prog := ([], Block 1%N [Block 2%N [ReturnFrom 1%N (ReturnFrom 2%N (KI 1)); KI 2]; KI 3]).
-(* (cond (5)): a clause without body yields the value of its test (repaired by 0170ebc; the guard still asks for clause bodies) *)
-Definition w_cond_nobody : prog := ([], Cond [(KI 5, [])]).
-Theorem other_refuted :
-  guard w_cleanup = false /\ guard w_dyn = false /\ guard w_mv = true /\ guard w_nested = false /\
-  guard w_cond_nobody = false /\
-  fst (mrun 60 w_cleanup st0) = MVal (VInt 3) /\ fst (srun 60 w_cleanup st0) = Normal (VInt 2) /\
+(* (defun g () (go 5)) (tagbody (g) (setq v0 (+ v0 1)) 5): the TagBody flag is inherited by the scope of the
+   call, the marker travels up to the caller's tagbody *)
+Definition w_dyn_go : prog := ([[Go 5%N]], Tagbody [IForm (CallU 0); IForm (Incf 0); ITag 5%N]).
+(* (tagbody (go 45)): go only checks the flag, not the tag; the marker leaves the tagbody as its value *)
+Definition w_go_unknown : prog := ([], Tagbody [IForm (Go 45%N)]).
+Theorem dynamic_lookup_refuted :
+  guard w_dyn = false /\ guard w_dyn_go = false /\ guard w_go_unknown = false /\
   fst (mrun 60 w_dyn st0) = MVal (VInt 3) /\ fst (srun 60 w_dyn st0) = Err CControl /\
-  fst (mrun 60 w_mv st0) = MVal VNil /\ fst (srun 60 w_mv st0) = Normal VNil /\
-  fst (mrun 60 w_nested st0) = MVal (VRetM 2%N (VInt 1)) /\ fst (srun 60 w_nested st0) = Normal (VInt 3) /\
-  fst (mrun 60 w_cond_nobody st0) = MVal (VInt 5) /\ fst (srun 60 w_cond_nobody st0) = Normal (VInt 5).
+  run_m w_dyn_go [0%Z] = (MVal VNil, [], [0%Z]) /\ run_s w_dyn_go [0%Z] = (Err CControl, [], [0%Z]) /\
+  fst (mrun 60 w_go_unknown st0) = MVal (VGoM 45%N) /\ fst (srun 60 w_go_unknown st0) = Err CControl.
 Proof. vm_compute. repeat split; reflexivity. Qed.
